@@ -63,10 +63,14 @@ def build_program(form, o, i, n, names, uva, uvk, partial, emulate):
         return src, lambda ns: {'wrapper': ns['wrapper']}
     so = mk_desc([mk_param(SELF, 'PK')] + list(o['params']), 100)
     si = mk_desc([mk_param(SELF, 'PK')] + list(i['params']), 101)
+    # half of the classes produce instances whose truth value is False (an empty
+    # container): the forgers must test the bound instance for None, not for truth
+    falsy = ('    def __len__(self):\n        return 0\n'
+             if (n + len(names) + int(uva) + int(uvk)) % 2 == 0 else '')
     if form == 'method':
         body = 'functools.partial(self.inner, %s)' % ca if partial else 'self.inner(%s)' % ca
         src = ('import functools\nfrom sigtools.specifiers import *\n'
-               'class K(object):\n'
+               'class K(object):\n' + falsy +
                '    def inner(%s):\n        return None\n'
                '    @forwards_to_method(%s)\n'
                '    def wrapper(%s):\n        return %s\n') % (
@@ -75,7 +79,7 @@ def build_program(form, o, i, n, names, uva, uvk, partial, emulate):
     if form == 'super':
         body = 'functools.partial(super().wrapper, %s)' % ca if partial else 'super().wrapper(%s)' % ca
         src = ('import functools\nfrom sigtools.specifiers import *\n'
-               'class Base(object):\n'
+               'class Base(object):\n' + falsy +
                '    def wrapper(%s):\n        return None\n'
                'class Sub(Base):\n'
                '    @forwards_to_super(%s)\n'
@@ -88,7 +92,7 @@ def build_program(form, o, i, n, names, uva, uvk, partial, emulate):
         da = ', '.join(["'wrapper'", 'num_args=%d' % n, 'named_args=%r' % (tuple(name_of(k) for k in names),),
                         'use_varargs=%s' % uva, 'use_varkwargs=%s' % uvk] + (['partial=True'] if partial else []))
         src = ('import functools\nfrom sigtools.specifiers import *\n'
-               'class Base(object):\n'
+               'class Base(object):\n' + falsy +
                '    def wrapper(%s):\n        return None\n'
                '@apply_forwards_to_super(%s)\n'
                'class Sub(Base):\n'
